@@ -9,6 +9,7 @@ import EEM.Real
 import EEM.Model.Refine
 import EEM.Bridge.Curve
 import EEM.Bridge.Kept
+import EEM.Props.C11
 import Mathlib.Tactic.Linarith
 
 namespace EEM.Props.C12
@@ -254,6 +255,20 @@ theorem C12_kept_reproduces_scored {Tmin Tmax Tmins Tmaxs : ℝ} (L : Limits Tmi
   | one_linear_flat bp c h1 h2 hT0 =>
     exact EEM.Bridge.Kept.one_linear_flat (c := c) (L := L) (h1 := h1) (h2 := h2) (hT0 := hT0) (T := T)
   | tidd c hT0 => exact tidd_case c Tmin Tmax Tmins Tmaxs hT0 T
+
+open EEM.Bridge.Kept in
+/-- **every covered kept model is a model C11 speaks about**: its stored record has an effective 7-vector
+that obeys the sign conventions and is not the whole-range boundary case — so continuity, flatness between
+the balance points, monotonicity, the asymptotes and the load identities of C11 hold for it, at every
+temperature (in particular: never a negative heating or cooling load) -/
+theorem C12_kept_model_obeys_C11 {Tmin Tmax Tmins Tmaxs : ℝ} (L : Limits Tmin Tmax Tmins Tmaxs)
+    {key : Gen.ModelKey} {raw : List ℝ} (h : Covered Tmin Tmax Tmins Tmaxs key raw) :
+    ∃ s x, keptSubmodel key raw Tmin Tmax Tmins Tmaxs = some s ∧ Effective s x ∧ NotWhole x s.T_max
+      ∧ ∀ (T : ℝ) (p : Model.Pred ℝ), Model.predictSubmodel s T = some p →
+          0 ≤ p.hdd_load ∧ 0 ≤ p.cdd_load ∧ (p.hdd_load = 0 ∨ p.cdd_load = 0)
+            ∧ s.coeffs.intercept + p.hdd_load + p.cdd_load = p.model := by
+  obtain ⟨s, _, _, hs, _, _, _, _, x, heff, hnw⟩ := C12_kept_reproduces_scored L h 0
+  exact ⟨s, x, hs, heff, hnw, fun T p hp => EEM.Props.C11.C11_loads heff hnw T p hp⟩
 
 /-- non-vacuity: a both-slopes smoothed outcome inside its box is covered -/
 example : Covered 10 95 20 85 .hdd_tidd_cdd_smooth [55, 1.2, 0.3, 68, 0.8, 0.2, 14] := by
